@@ -290,7 +290,20 @@ pub fn c07(out: &mut Out, tier: &str, rng: &mut Rng) {
         for p in p_grid(rng, v.len(), nrand) {
             if !out.next_case() { continue; }
             let mut q = Quantile::new(p);
-            for &x in &v { q.add(x); }
+            for (i, &x) in v.iter().enumerate() {
+                q.add(x);
+                // operations that must not change anything: clone, clone_from, a serde round trip - at every sample size
+                if (out.case as usize + i) % 4 == 0 {
+                    let before = format!("{:?}", q);
+                    let copy: Quantile = match (out.case as usize / 4 + i) % 3 {
+                        0 => q.clone(),
+                        1 => { let mut t = Quantile::new(0.5); t.add(9.0); t.clone_from(&q); t }
+                        _ => serde_json::to_string(&q).ok().and_then(|js| serde_json::from_str(&js).ok()).unwrap_or_else(|| q.clone()),
+                    };
+                    out.x(format!("{:?}", copy) == before, || format!("Quantile: clone / clone_from / serde round trip changed the state {} -> {:?}", before, copy));
+                    q = copy;
+                }
+            }
             let pre = qwords(&q).join(" ");
             let est = q.quantile();
             out.t("Quantile", "quantile", &pre, "", &fw(est));
